@@ -55,9 +55,81 @@ SPEC_FUEL = 400
 
 # ---------------------------------------------------------------- templates
 # item: ("T", text) | ("B", name, required, body, endname|None) | ("S",) | ("E", template name)
-#       | ("Q", 0|1)  a silent tag (assign / comment)   | ("W", "if"|"for", body)  {% if true %} / {% for i in (1..1) %}
+#       | ("Q", 0|1)  a silent tag (assign / comment)
+#       | ("W", kind, body)  a container tag: if {% if true %}, for {% for i in (1..1) %}, unless {% unless false %},
+#         case {% case 1 %}{% when 1 %}, with {% with x: 1 %}, cap {% capture c %}..{% endcapture %}{{ c }},
+#         liq the lines of a {% liquid %} tag (no whitespace-only text inside)
+#       harness and Python specification only:
+#       | ("K2", body) capture printed twice | ("M", body, called) a macro (and a call of it)
+#       | ("F", n, body) {% for i in (1..n) %} | ("V",) {{ i }}
 #       | ("I", template name) | ("N", template name) | ("C", template name)   include / render tag / a macro that renders
 #         the template, called on the spot: harness and Python specification only
+
+
+WRAP_SRC = {
+    "if": ("{% if true %}", "{% endif %}"),
+    "for": ("{% for i in (1..1) %}", "{% endfor %}"),
+    "unless": ("{% unless false %}", "{% endunless %}"),
+    "case": ("{% case 1 %}{% when 1 %}", "{% endcase %}"),
+    "with": ("{% with x: 1 %}", "{% endwith %}"),
+    "cap": ("{% capture c %}", "{% endcapture %}{{ c }}"),
+}
+WRAP_COQ = {"if": "WIf", "for": "WFor", "unless": "WUnless", "case": "WCase", "with": "WWith", "cap": "WCap", "liq": "WLiq"}
+WRAP_LINES = {
+    "if": (["if true"], ["endif"]), "liq": (["if true"], ["endif"]),
+    "for": (["for i in (1..1)"], ["endfor"]),
+    "unless": (["unless false"], ["endunless"]),
+    "case": (["case 1", "when 1"], ["endcase"]),
+    "with": (["with x: 1"], ["endwith"]),
+    "cap": (["capture c"], ["endcapture", "echo c"]),
+}
+
+
+def liquid_lines(items: Iterable[tuple], data: dict | None, ae: bool) -> list[str]:
+    """The body of a {% liquid %} tag, one statement per line (text is echoed)."""
+    out: list[str] = []
+    for it in items:
+        if it[0] == "T":
+            t = it[1]
+            assert t.strip() and "'" not in t and "\n" not in t, "no whitespace-only text inside a liquid tag"
+            if data is not None and ("<" in t or "&" in t):
+                val = html.unescape(t) if ae else t
+                name = next((k for k, v in data.items() if v == val), None) or f"v{len(data)}"
+                data[name] = val
+                out.append("echo " + name)
+            else:
+                out.append("echo '" + t + "'")
+        elif it[0] == "S":
+            out.append("echo block.super")
+        elif it[0] == "E":
+            out.append("extends '" + it[1] + "'")
+        elif it[0] == "Q":
+            out.append("assign z = 1")
+        elif it[0] == "W":
+            a, z = WRAP_LINES[it[1]]
+            out += a + liquid_lines(it[2], data, ae) + z
+        elif it[0] == "B":
+            _, n, req, body, endn = it
+            out.append("block " + n + (" required" if req else ""))
+            out += liquid_lines(body, data, ae)
+            out.append("endblock" + (" " + endn if endn else ""))
+        else:
+            raise ValueError(it[0])
+    return out
+
+
+def no_blank_text(items: list) -> list:
+    """Drop whitespace-only text (for bodies that go inside a liquid tag)."""
+    out = []
+    for it in items:
+        if it[0] == "T" and not it[1].strip():
+            continue
+        if it[0] == "B":
+            it = it[:3] + (no_blank_text(it[3]), it[4])
+        elif it[0] == "W":
+            it = it[:2] + (no_blank_text(it[2]),)
+        out.append(it)
+    return out
 
 
 def to_src(items: Iterable[tuple], data: dict | None = None, ae: bool = False) -> str:
@@ -83,10 +155,19 @@ def to_src(items: Iterable[tuple], data: dict | None = None, ae: bool = False) -
         elif it[0] == "Q":
             out.append("{% assign z = 1 %}" if it[1] == 0 else "{% comment %}c{% endcomment %}")
         elif it[0] == "W":
-            if it[1] == "if":
-                out.append("{% if true %}" + to_src(it[2], data, ae) + "{% endif %}")
+            if it[1] == "liq":
+                out.append("{% liquid\n" + "\n".join(liquid_lines(it[2], data, ae)) + "\n%}")
             else:
-                out.append("{% for i in (1..1) %}" + to_src(it[2], data, ae) + "{% endfor %}")
+                a, z = WRAP_SRC[it[1]]
+                out.append(a + to_src(it[2], data, ae) + z)
+        elif it[0] == "K2":
+            out.append("{% capture c %}" + to_src(it[1], data, ae) + "{% endcapture %}{{ c }}{{ c }}")
+        elif it[0] == "M":
+            out.append("{% macro mm %}" + to_src(it[1], data, ae) + "{% endmacro %}" + ("{% call mm %}" if it[2] else ""))
+        elif it[0] == "F":
+            out.append("{% for i in (1.." + str(it[1]) + ") %}" + to_src(it[2], data, ae) + "{% endfor %}")
+        elif it[0] == "V":
+            out.append("{{ i }}")
         elif it[0] == "I":
             out.append("{% include '" + it[1] + "' %}")
         elif it[0] == "N":
@@ -126,7 +207,7 @@ def c_items(items: Iterable[tuple]) -> str:
         elif it[0] == "Q":
             out.append("Quiet")
         elif it[0] == "W":
-            out.append(f"Wrap {'WIf' if it[1] == 'if' else 'WFor'} {c_items(it[2])}")
+            out.append(f"Wrap {WRAP_COQ[it[1]]} {c_items(it[2])}")
         else:
             _, n, req, body, endn = it
             e = "NS" if endn is None else f"(Some {c_bname(endn)})"
@@ -243,6 +324,9 @@ class Runner:
         if before is not None:
             outs += self.history(before, srcs, entry, limit, suppress, ae, int(opts.get("mt", 10)), kw)
             self.n_history = len(outs)      # the first n_history outcomes are second renders after the edit
+        if opts.get("choice") is not None:
+            outs += self.choice_history(opts["choice"], entry, limit, suppress, ae, data, kw)
+            self.n_history = len(outs)
         try:
             for make, anon in makers:
                 for is_async in (False, True):
@@ -293,6 +377,67 @@ class Runner:
             return ("err", type(e).__name__)
         finally:
             signal.setitimer(signal.ITIMER_REAL, 0)
+
+    def choice_history(self, ch: dict, entry: tuple, limit: int, suppress: bool, ae: bool,
+                       data: dict | None, kw: dict) -> list[tuple]:
+        """One ChoiceLoader / CachingChoiceLoader object used for several renders while the answer
+        of its higher-priority delegate changes: kind "overlay" - a DictLoader in front of the
+        defaults gains / loses templates between renders; kind "theme" - a context-aware loader in
+        front of the defaults answers from the theme named by the render argument `theme`
+        (CachingChoiceLoader keyed by namespace_key="theme").  Returns the outcomes of the LAST step."""
+        from liquid2 import CachingChoiceLoader, ChoiceLoader, DictLoader
+        from liquid2.exceptions import TemplateNotFoundError
+        from liquid2.loader import BaseLoader, TemplateSource
+
+        def src(m: dict) -> dict[str, str]:
+            return {k: to_src(v, data, ae) for k, v in m.items()}
+
+        defaults = src(ch["defaults"])
+        kw = dict(kw, **(data or {}))
+        cls = self.env_class(limit, suppress)
+        outs: list[tuple] = []
+        if ch["kind"] == "theme":
+            themes = {t: src(m) for t, m in ch["themes"].items()}
+
+            class ThemeLoader(BaseLoader):
+                def get_source(self, env, template_name, *, context=None, **kwargs):  # noqa: ANN001, ANN003, ANN202, ARG002
+                    theme = kwargs.get("theme")
+                    if theme is None and context is not None:
+                        theme = context.globals.get("theme")
+                    try:
+                        return TemplateSource(themes[theme][template_name], template_name, None)
+                    except KeyError:
+                        raise TemplateNotFoundError(template_name) from None
+            loaders = [ChoiceLoader([ThemeLoader(), DictLoader(defaults)]),
+                       CachingChoiceLoader([ThemeLoader(), DictLoader(defaults)], namespace_key="theme")]
+            steps = [dict(theme=t) for t in ch["steps"]]
+            mutate = [None] * len(steps)
+        else:
+            overlay: dict[str, str] = {}
+            loaders = [ChoiceLoader([DictLoader(overlay), DictLoader(defaults)])]
+            steps = [{} for _ in ch["steps"]]
+            mutate = [src(m) for m in ch["steps"]]
+        for loader in loaders:
+            for is_async in (False, True):
+                env = cls(loader=loader, auto_escape=ae)
+                last: tuple = ("err", "NoStep")
+                for extra, mut in zip(steps, mutate):
+                    if mut is not None:
+                        overlay.clear()
+                        overlay.update(mut)
+                    args = dict(kw, **extra)
+
+                    def go():  # noqa: ANN202
+                        if entry[0] == "direct":
+                            t = (self.loop.run_until_complete(env.get_template_async(entry[1])) if is_async
+                                 else env.get_template(entry[1]))
+                        else:
+                            t = env.from_string("".join(("{% render '" if r else "{% include '") + n + "' %}"
+                                                        for r, n in entry[1]))
+                        return self.loop.run_until_complete(t.render_async(**args)) if is_async else t.render(**args)
+                    last = self._guarded(go)
+                outs.append(last)
+        return outs
 
     def history(self, before: dict[str, str], after: dict[str, str], entry: tuple, limit: int,
                 suppress: bool, ae: bool, mt: int, kw: dict) -> list[tuple]:
@@ -365,8 +510,10 @@ def _walk(items: Iterable[tuple]):
         yield it
         if it[0] == "B":
             yield from _walk(it[3])
-        elif it[0] == "W":
+        elif it[0] in ("W", "F"):
             yield from _walk(it[2])
+        elif it[0] in ("K2", "M"):
+            yield from _walk(it[1])
 
 
 def is_blank(items: list) -> bool:
@@ -377,7 +524,7 @@ def is_blank(items: list) -> bool:
             if it[1].strip() != "":
                 return False
         elif it[0] == "W":
-            if not is_blank(it[2]):
+            if it[1] == "cap" or not is_blank(it[2]):
                 return False
         elif it[0] != "Q":
             return False
@@ -426,6 +573,8 @@ def pyspec(tpls: dict[str, list], name: str, _depth: int = 0, suppress: bool = T
                         break
             return out
 
+        ivar: list[int] = []
+
         def body(items: list, sup: list, depth: int) -> str:
             text = render(items, sup, depth)
             return "" if suppress and is_blank(items) else text
@@ -446,6 +595,24 @@ def pyspec(tpls: dict[str, list], name: str, _depth: int = 0, suppress: bool = T
                     pass
                 elif it[0] == "W":
                     out.append(body(it[2], sup, depth + 1))
+                elif it[0] == "K2":
+                    out.append(2 * body(it[1], sup, depth + 1))
+                elif it[0] == "M":
+                    # a block tag is disabled inside a macro: a called macro with a block in it is an error
+                    if it[2] and any(x[0] == "B" for x in _walk(it[1])):
+                        raise SpecErr("DisabledTagError")
+                    if it[2]:
+                        out.append(body(it[1], [], depth + 1))
+                elif it[0] == "F":
+                    for k in range(1, it[1] + 1):
+                        ivar.append(k)
+                        try:
+                            part = render(it[2], sup, depth + 1)
+                        finally:
+                            ivar.pop()
+                        out.append("" if suppress and is_blank(it[2]) else part)
+                elif it[0] == "V":
+                    out.append(str(ivar[-1]) if ivar else "")
                 elif (it[0] == "I" and include_shares_stacks and it[1] in tpls
                       and not any(x[0] == "E" for x in _walk(tpls[it[1]]))):
                     # the recorded alternative: an included template without extends resolves its
@@ -577,8 +744,9 @@ def rand_items(r, names: list[str], depth: int, *, top: bool, p_ext: float, tnam
         elif x < 0.31:
             out.append(("Q", r.randint(0, 1)))
         elif x < 0.36 and depth > 0:
-            out.append(("W", r.choice(["if", "for"]),
-                        rand_items(r, names, depth - 1, top=False, p_ext=p_ext, tnames=tnames)))
+            kind = r.choice(["if", "for", "unless", "case", "with", "cap", "cap", "liq"])
+            inner = rand_items(r, names, depth - 1, top=False, p_ext=p_ext, tnames=tnames)
+            out.append(("W", kind, no_blank_text(inner) if kind == "liq" else inner))
         elif x < 0.45:
             out.append(("S",))
         elif x < 0.45 + p_ext:
@@ -658,6 +826,96 @@ def nested_cases(r, n: int) -> list[tuple[dict, tuple, int]]:
     return out
 
 
+WRAP_KINDS = ["if", "for", "unless", "case", "with", "cap", "liq"]
+
+
+def _b(n: str, body: list, req: bool = False) -> tuple:
+    return ("B", n, req, body, None)
+
+
+def container_cases() -> list[tuple]:
+    """Blocks nested through container tags (complete): for each kind K, the root holds block a (and b)
+    inside K in one of 4 layouts; the child omits / defines / defines with block.super each block and
+    wraps its overrides in nothing, a capture or K."""
+    out = []
+    for kind in WRAP_KINDS:
+        pad = [] if kind == "liq" else [("T", " ")]
+        for layout in range(4):
+            a0 = _b("a", [("T", "a0")])
+            ab0 = _b("a", [("T", "a0"), _b("b", [("T", "b0")])])
+            root = [("T", "["), ("W", kind, {0: [a0], 1: pad + [a0] + pad, 2: [ab0]}.get(layout, [])), ("T", "]")]
+            if layout == 3:
+                root = [("T", "["), _b("a", [("W", kind, pad + [_b("b", [("T", "b0")])])]), ("T", "]")]
+            for sa in "ODS":
+                for sb in "ODS":
+                    for cw in (None, "cap", kind):
+                        blocks = [_b(n, [("T", n + "1")] + ([("S",)] if st == "S" else []))
+                                  for n, st in (("a", sa), ("b", sb)) if st != "O"]
+                        if cw is not None and not blocks:
+                            continue
+                        child = [("E", "t0")] + ([("W", cw, blocks)] if cw else blocks) + [("T", "x")]
+                        out.append(({"t0": root, "t1": child}, ("direct", "t1"), 30))
+    return out
+
+
+# fixed container cases (model + specification)
+CONTAINER_CORPUS: list[tuple] = [
+    # duplicate block names hidden in captures / liquid lines must be rejected
+    ({"t0": [("T", "["), ("W", "cap", [_b("a", [("T", "1")])]), ("W", "cap", [_b("a", [("T", "2")])]), ("T", "]")],
+      "t1": [("E", "t0")]}, ("direct", "t1"), 30),
+    ({"t0": [("T", "["), _b("a", [("T", "1")]), ("T", "]")],
+      "t1": [("E", "t0"), ("W", "liq", [_b("a", [("T", "x")])]), ("W", "cap", [_b("a", [("T", "y")])])]}, ("direct", "t1"), 30),
+    # two extends tags, one inside a capture
+    ({"t0": [("T", "R")], "t1": [("E", "t0"), ("W", "cap", [("E", "t0")])]}, ("direct", "t1"), 30),
+    # required block inside a capture, overridden / not overridden
+    ({"t0": [("T", "["), ("W", "cap", [_b("a", [], True)]), ("T", "]")], "t1": [("E", "t0"), _b("a", [("T", "la")])]}, ("direct", "t1"), 30),
+    ({"t0": [("T", "["), ("W", "cap", [_b("a", [], True)]), ("T", "]")], "t1": [("E", "t0")]}, ("direct", "t1"), 30),
+    # the leaf's extends tag inside a capture / liquid tag: what the capture holds is never printed
+    ({"t0": [("T", "["), _b("a", [("T", "ra")]), ("T", "]")],
+      "t1": [("W", "cap", [("T", "p"), ("E", "t0")]), _b("a", [("T", "la")])]}, ("direct", "t1"), 30),
+    ({"t0": [("T", "["), _b("a", [("T", "ra")]), ("T", "]")],
+      "t1": [("W", "liq", [("T", "p"), ("E", "t0")]), _b("a", [("T", "la")])]}, ("wrap", [(False, "t1"), (True, "t1")]), 30),
+]
+
+
+def extra_cases() -> list[tuple[dict, tuple, int]]:
+    """Python-specification-only cases: a capture printed twice, macros with blocks, blocks rendered
+    several times by a for loop of the base whose body depends on the loop variable."""
+    out = []
+    for sa in "DS":
+        child = [("E", "t0"), _b("a", [("T", "a1")] + ([("S",)] if sa == "S" else []))]
+        out.append(({"t0": [("T", "["), ("K2", [_b("a", [("T", "a0")])]), ("T", "]")], "t1": child}, ("direct", "t1"), 30))
+        out.append(({"t0": [("T", "["), _b("a", [("T", "a0")]), ("T", "]")],
+                     "t1": [("E", "t0"), ("K2", [_b("a", [("T", "a1"), ("S",)])])]}, ("direct", "t1"), 30))
+        for called in (False, True):
+            out.append(({"t0": [("T", "["), ("M", [_b("a", [("T", "a0")])], called), ("T", "]")], "t1": child},
+                        ("direct", "t1"), 30))
+    # a duplicate name hidden in an uncalled macro
+    out.append(({"t0": [("T", "["), _b("a", [("T", "a0")]), ("M", [_b("a", [("T", "m")])], False), ("T", "]")],
+                 "t1": [("E", "t0")]}, ("direct", "t1"), 30))
+    # (b) blocks rendered once per iteration: every block.super is rendered afresh
+    states = ["O", "D", "S", "Dv", "Sv"]
+
+    def over(i: int, st: str) -> list:
+        if st == "O":
+            return []
+        return [_b("a", [("T", "a" + str(i))] + ([("V",)] if "v" in st else []) + ([("S",)] if st[0] == "S" else []))]
+    for n in (2, 3):
+        for root_v in (True, False):
+            root = [("T", "["), ("F", n, [_b("a", [("T", "r")] + ([("V",)] if root_v else [])), ("T", ",")]), ("T", "]")]
+            for st1 in states:
+                out.append(({"t0": root, "t1": [("E", "t0")] + over(1, st1)}, ("direct", "t1"), 30))
+                for st2 in states:
+                    out.append(({"t0": root, "t1": [("E", "t0")] + over(1, st1), "t2": [("E", "t1")] + over(2, st2)},
+                                ("direct", "t2"), 30))
+    # a loop inside a block that a super renders, and nested loops
+    out.append(({"t0": [("T", "["), _b("a", [("F", 2, [("T", "r"), ("V",), _b("b", [("T", "b"), ("V",)])])]), ("T", "]")],
+                 "t1": [("E", "t0"), _b("b", [("T", "B"), ("S",)]), _b("a", [("T", "A"), ("S",), ("S",)])]}, ("direct", "t1"), 30))
+    out.append(({"t0": [("T", "["), ("F", 2, [("F", 3, [_b("a", [("V",)]), ("T", ".")]), ("T", "|")]), ("T", "]")],
+                 "t1": [("E", "t0"), _b("a", [("T", "<"), ("S",), ("T", ">")])]}, ("wrap", [(False, "t1"), (True, "t1")]), 30))
+    return out
+
+
 def partial_cases(r, n: int) -> list[tuple[dict, tuple, int]]:
     """A block-bearing template that does NOT extend (a depth-one chain: a card
     that is also a base for other cards), with and without required blocks and
@@ -682,10 +940,6 @@ def partial_cases(r, n: int) -> list[tuple[dict, tuple, int]]:
             r.choice(hosts)[3].insert(1, (r.choice("NC"), "k0"))
         out.append(({**outer, "k0": card}, ("direct", f"t{d_out - 1}"), 30))
     return out
-
-
-def _b(n: str, body: list, req: bool = False) -> tuple:
-    return ("B", n, req, body, None)
 
 
 # fixed partial cases: render / macro call must isolate; WINC is the recorded include behaviour
@@ -795,8 +1049,10 @@ def _map_items(items: list, f) -> list:
         it = f(it)
         if it[0] == "B":
             it = it[:3] + (_map_items(it[3], f), it[4])
-        elif it[0] == "W":
+        elif it[0] in ("W", "F"):
             it = it[:2] + (_map_items(it[2], f),)
+        elif it[0] in ("K2", "M"):
+            it = (it[0], _map_items(it[1], f)) + it[2:]
         out.append(it)
     return out
 
@@ -883,6 +1139,30 @@ def edited_history(r, case: tuple) -> tuple | None:
     opts = dict(case[4]) if len(case) > 4 else {}
     opts.update({"before": tpls, "mt": r.choice([10, -10, 1, -3600])})
     return (after, entry) + case[2:4] + (opts,)
+
+
+def choice_history_case(r, case: tuple) -> tuple | None:
+    """The chain as a ChoiceLoader sees it at the last of 2-3 renders through one loader object:
+    alternative versions of one or two parents live in a higher-priority delegate (an overlay that
+    gains / loses them, or the 'dark' theme of a context-aware loader)."""
+    case = tuple(case) + ((True,) if len(case) == 3 else ())
+    tpls, entry = case[0], case[1]
+    entered = {entry[1]} if entry[0] == "direct" else {n for _, n in entry[1]}
+    parents = [k for k in tpls if k not in entered]
+    if not parents:
+        return None
+    alt = {k: edit_template(r, tpls[k]) for k in r.sample(parents, min(len(parents), r.choice([1, 1, 2])))}
+    opts = dict(case[4]) if len(case) > 4 else {}
+    if r.random() < 0.5:
+        steps = r.choice([["default", "dark"], ["dark", "default"], ["default", "dark", "default"],
+                          ["dark", "default", "dark"], ["dark", "dark"]])
+        opts["choice"] = {"kind": "theme", "defaults": tpls, "themes": {"dark": alt, "default": {}}, "steps": steps}
+        now = alt if steps[-1] == "dark" else {}
+    else:
+        steps = r.choice([[{}, alt], [alt, {}], [{}, alt, {}], [alt, {}, alt]])
+        opts["choice"] = {"kind": "overlay", "defaults": tpls, "steps": steps}
+        now = steps[-1]
+    return ({**tpls, **now}, entry) + case[2:4] + (opts,)
 
 
 # legal chains and genuine cycles through names with a repeated last component
@@ -1053,7 +1333,7 @@ def main(chk: C.Check, build: C.Build) -> None:
     fam_counts: dict[str, Any] = {}
     #        names, depth, fraction in thorough, fraction in quick
     plan = [(1, 2, 1.0, 0.25), (1, 3, 1.0, 0.25), (1, 4, 1.0, 0.1), (2, 2, 1.0, 0.1),
-            (2, 3, 1.0, 0.011), (3, 2, 0.06, 0.011),
+            (2, 3, 1.0, 0.009), (3, 2, 0.06, 0.009),
             (2, 4, 0.0015, 0.0003), (3, 3, 0.00025, 0.00005), (3, 4, 0.0000013, 0.00000025)]
     for k, d, f_th, f_q in plan:
         shapes = fam_shapes(k)
@@ -1074,7 +1354,7 @@ def main(chk: C.Check, build: C.Build) -> None:
                 n += 1
         fam_counts[f"names={k},depth={d}"] = {"space": total, "run": n, "complete": p >= 1.0}
     # the blank family: empty / whitespace / silent bodies, nested required blocks, if / for wrappers
-    bl_plan = [(1, 2, 1.0, 0.3), (1, 3, 1.0, 0.04), (2, 2, 1.0, 0.024),
+    bl_plan = [(1, 2, 1.0, 0.25), (1, 3, 1.0, 0.03), (2, 2, 1.0, 0.02),
                (1, 4, 0.03, 0.002), (2, 3, 0.0006, 0.00006), (3, 2, 0.0012, 0.0001)]
     for k, d, f_th, f_q in bl_plan:
         shapes = bl_shapes(k)
@@ -1101,7 +1381,7 @@ def main(chk: C.Check, build: C.Build) -> None:
         if r.random() < 0.03 and len(tpls) > 1:
             cases.append((tpls, ("wrap", [(r.random() < 0.5, entry[1])]), limit, c[3] if len(c) > 3 else True))
             fam_wrapped += 1
-    nrand = 350 if not thorough else 4000
+    nrand = 300 if not thorough else 4000
     for _ in range(nrand):
         cases.append(rand_case(r, thorough) + (r.random() < 0.75,))
     # configuration axes: markup characters in literal text / in render data with auto-escape on / off;
@@ -1128,10 +1408,25 @@ def main(chk: C.Check, build: C.Build) -> None:
         n_basename += 2
     cases += NAME_CORPUS
     n_basename += len(NAME_CORPUS)
+    # blocks nested through container tags (complete in thorough, half of them in quick)
+    n_container = 0
+    for c in container_cases():
+        if thorough or r.random() < 0.3:
+            cases.append(c + (r.random() < 0.8,))
+            n_container += 1
+    cases += CONTAINER_CORPUS
+    # loader histories: one ChoiceLoader / CachingChoiceLoader object, the higher-priority delegate changes
+    n_choice = 0
+    pool = [c for c in cases[n_fixed:] if len(c[0]) > 2 and not (len(c) > 4 and c[4])]
+    for c in r.sample(pool, min(len(pool), 60 if not thorough else 1000)):
+        h = choice_history_case(r, c)
+        if h is not None:
+            cases.append(h)
+            n_choice += 1
     # auto-reload through the tags: a parent / grand-parent is edited on disk between two renders
     n_history = 0
-    pool = [c for c in cases[n_fixed:] if len(c[0]) > 1 and not (len(c) > 4 and c[4].get("before"))]
-    for c in r.sample(pool, min(len(pool), 90 if not thorough else 1200)):
+    pool = [c for c in cases[n_fixed:] if len(c[0]) > 1 and not (len(c) > 4 and (c[4].get("before") or c[4].get("choice")))]
+    for c in r.sample(pool, min(len(pool), 70 if not thorough else 1000)):
         h = edited_history(r, c)
         if h is not None:
             cases.append(h)
@@ -1156,10 +1451,10 @@ def main(chk: C.Check, build: C.Build) -> None:
             # the async path uses more Python frames per level: one mechanism, see the RecursionError finding
             return ("err", "RecursionError")
         if n_hist and len(set(outs[n_hist:])) == 1 and set(outs[:n_hist]) != {outs[-1]}:
-            chk.finding("oracle:parent-edited-on-disk-not-reloaded",
-                        f"after a parent was edited on disk, the caching auto-reload file-system loader (sync get_template, "
-                        f"async get_template, the first render's template object, a fresh environment) gave {outs[:n_hist]}; "
-                        f"the edited chain renders {outs[-1]}",
+            chk.finding("oracle:chain-not-rebuilt-after-a-loader-change",
+                        f"after a parent changed (edited on disk under the caching auto-reload file-system loader, or a "
+                        f"higher-priority delegate of a choice loader answering differently) the later renders through the "
+                        f"same loader object gave {outs[:n_hist]}; the chain as it is now renders {outs[-1]}",
                         {"templates": {k: to_src(v) for k, v in tpls.items()}, "entry": entry,
                          "context_depth_limit": limit, "outcomes": outs})
             return None
@@ -1217,7 +1512,13 @@ def main(chk: C.Check, build: C.Build) -> None:
         else:
             w = C.clist((C.cpair(C.cbool(rr), c_name(n)) for rr, n in entry[1]), "(bool * str)")
             model = f"run_wrapper {limit} {sb} ld {w}"
-        ropts = {k: v for k, v in opts.items() if k != "before"}
+        ropts = {k: v for k, v in opts.items() if k not in ("before", "choice")}
+        if "choice" in opts:
+            ch_ = opts["choice"]
+            ropts["choice_loader_history"] = {
+                "kind": ch_["kind"], "defaults": {k: to_src(v) for k, v in ch_["defaults"].items()},
+                "steps": [x if isinstance(x, str) else {k: to_src(v) for k, v in x.items()} for x in ch_["steps"]],
+                "themes": {t: {k: to_src(v) for k, v in m.items()} for t, m in ch_.get("themes", {}).items()}}
         replay = {"templates": src, "entry": entry, "context_depth_limit": limit,
                   "suppress_blank_control_flow_blocks": suppress, "options": ropts, "implementation": o}
         if "before" in opts:
@@ -1282,15 +1583,24 @@ def main(chk: C.Check, build: C.Build) -> None:
     # block-bearing templates that do not extend, rendered / called / included from inside a chain that
     # overrides the same block names: render and macro calls isolate the block stacks; include is the
     # recorded finding (the witness WINC is re-observed on every run)
-    partials = PARTIAL_CORPUS + [WINC] + partial_cases(r, 150 if not thorough else 2000)
+    extras = extra_cases()
+    partials = PARTIAL_CORPUS + [WINC] + partial_cases(r, 150 if not thorough else 2000) + extras
     n_partial = {"checked": 0, "render_or_call_only": 0, "include_shared_stacks_observed": 0}
     for (tpls, entry, limit), (outs, _, _) in zip(partials, observe_all(partials)):
         o = agreed(outs, tpls, entry, limit)
         if o is None or o in (("err", "ContextDepthError"), ("err", "RecursionError")):
             continue
-        exp = pyspec(tpls, entry[1])
+        exp = expected_by_spec(tpls, [entry[1]] if entry[0] == "direct" else [n for _, n in entry[1]])
         n_partial["checked"] += 1
         has_include = any(it[0] == "I" for t in tpls.values() for it in _walk(t))
+        if "k0" not in tpls:   # capture printed twice / macros / blocks rendered once per loop iteration
+            n_partial["containers_and_loops_spec_only"] = n_partial.get("containers_and_loops_spec_only", 0) + 1
+            if exp != o:
+                chk.finding("oracle:output-differs-from-most-derived-resolution",
+                            f"implementation gave {o}, the specification gives {exp if exp else 'no finite page'}",
+                            {"templates": {k: to_src(v) for k, v in tpls.items()}, "entry": entry,
+                             "implementation": o, "specification": exp})
+            continue
         n_partial["render_or_call_only"] += not has_include
         if exp == o:
             continue
@@ -1345,6 +1655,8 @@ def main(chk: C.Check, build: C.Build) -> None:
         "auto_escape_variants": n_markup,
         "same_basename_variants": n_basename,
         "parent_edited_on_disk_between_renders": n_history,
+        "choice_loader_histories": n_choice,
+        "blocks_inside_container_tags": n_container,
         "nested_chain_cases_checked_against_python_specification": n_nested_ok,
         "block_bearing_partials_rendered_inside_a_chain": n_partial,
         "distribution": dist,
